@@ -9,8 +9,14 @@ ADVERSARIAL = ["with space", " lead", "trail ", "tab\there", "new\nline", "quo't
                "dollar$", "bang!", "tilde~", "at@", "plus+", "..dots", "...", ".hidden", ".h.txt", "a.b.c", "UPPER.TXT", "caret^", "pipe|x", "lt<gt>"]
 
 
-def rand_name(rng, adversarial=0.15):
+# names that look like path or list syntax: what depth arithmetic, key joining and splitting code may trip over
+SYNTAX_NAMES = ["a\\b", "\\", "x\\y\\z", "a,b", ",", "c,d,e", "a:b", "a;b", "..a", "a..", "a b", "a=b", "a|b", "[x] y", "%2F", "a\tb", "~", "-", "*", "{}"]
+
+
+def rand_name(rng, adversarial=0.15, syntax=False):
     if rng.random() < adversarial:
+        if syntax and rng.random() < 0.6:
+            return rng.choice(SYNTAX_NAMES) + rng.choice(["", "", "1", ".txt"])
         return rng.choice(ADVERSARIAL)
     n = rng.randint(1, 6)
     s = "".join(rng.choice("abcdefghijklmnopqrstuvwxyz0123456789_") for _ in range(n))
@@ -42,11 +48,12 @@ def gen_tree(rng, roots, max_entries=30, max_depth=4, kinds=None, adversarial=0.
             parent, lvl = rng.choice(dirs[:max(1, len(dirs) // 2 + 1)])
         else:
             parent, lvl = rng.choice(dirs)
-        name = rand_name(rng, adversarial)
+        t = rng.choices([k for k, _ in kk], [w for _, w in kk])[0]
+        # directories get adversarial (path-syntax-like) names more often: they are what paths are built from
+        name = rand_name(rng, min(0.7, adversarial * 2.5), syntax=True) if t == "dir" else rand_name(rng, adversarial, syntax=rng.random() < 0.3)
         if name in used[parent] or name in (".", ".."):
             continue
         used[parent].add(name)
-        t = rng.choices([k for k, _ in kk], [w for _, w in kk])[0]
         path = parent + "/" + name
         if t == "dir" and lvl + 1 >= max_depth:
             t = "file"
